@@ -225,6 +225,18 @@ func TestSeeds(t *testing.T) {
 		{"asn1_ber", "30053000020107", nil, false, []any{[]any{}, bi(7)}, "asn1_ber:zero-length-as-indefinite"},
 		{"toml", hex.EncodeToString([]byte("b = [0, {\"\" = 0}, 0]\n")), nil, true, map[string]any{"b": []any{bi(0), map[string]any{"": bi(0)}, bi(0)}}, "toml:empty-key-and-inline-table-in-array"},
 		{"csv", hex.EncodeToString([]byte("a\t\tb\nc\td\te\n")), map[string]any{"comma": "\t"}, true, []any{[]any{"a", "", "b"}, []any{"c", "d", "e"}}, "csv:tab-comma-empty-field"},
+		// shapes the generator reaches rarely (depth): arrays of tables inside arrays
+		// of tables, three levels (seed C16-5: the second level came back as null)
+		{"toml", hex.EncodeToString([]byte("[[f]]\nn = \"a\"\n[[f.v]]\nn = \"r\"\n[[f.v.w]]\nk = 1\n[[f.v.w]]\nk = 2\n[[f.v]]\nn = \"g\"\n[[f]]\nn = \"b\"\n[f.t]\nx = [1, [2, {y = 3}]]\n")), nil, true,
+			map[string]any{"f": []any{
+				map[string]any{"n": "a", "v": []any{map[string]any{"n": "r", "w": []any{map[string]any{"k": bi(1)}, map[string]any{"k": bi(2)}}}, map[string]any{"n": "g"}}},
+				map[string]any{"n": "b", "t": map[string]any{"x": []any{bi(1), []any{bi(2), map[string]any{"y": bi(3)}}}}},
+			}}, "document:toml-nested-arrays-of-tables"},
+		{"yaml", hex.EncodeToString([]byte("f:\n- n: a\n  v:\n  - n: r\n    w:\n    - k: 1\n    - k: 2\n  - n: g\n- n: b\n")), nil, true,
+			map[string]any{"f": []any{
+				map[string]any{"n": "a", "v": []any{map[string]any{"n": "r", "w": []any{map[string]any{"k": bi(1)}, map[string]any{"k": bi(2)}}}, map[string]any{"n": "g"}}},
+				map[string]any{"n": "b"},
+			}}, "document:yaml-nested-sequences-of-mappings"},
 	} {
 		if w, ok := s.want.([]any); ok && len(w) == 40 {
 			for j := range w {
